@@ -656,6 +656,20 @@ fn spawn_async_ao_list_in_task'''),
         ('dot-file-eligibility-sticks-across-components', 'brush-core/src/patterns.rs', [("        for component in components {\n            if !component.iter().any(|piece| {", "        let mut allow_dot_files = !options.require_dot_in_pattern_to_match_dot_files;\n\n        for component in components {\n            if !component.iter().any(|piece| {"), ("                let allow_dot_files = !options.require_dot_in_pattern_to_match_dot_files\n                    || subpattern_starts_with_dot;\n", "                allow_dot_files = allow_dot_files || subpattern_starts_with_dot;\n")]),
         ('dot-files-always-listed', 'brush-core/src/patterns.rs', "                    !dir_entry.file_name().to_string_lossy().starts_with('.') || allow_dot_files\n", "                    !dir_entry.file_name().to_string_lossy().starts_with('.') || true\n"),
     ],
+    'U3d': [
+        ('length-of-a-bare-name-tolerates-unset', 'brush-core/src/expansion.rs', "                let allow_unset = match &parameter {\n                    brush_parser::word::Parameter::NamedWithIndex { name, .. }", "                let allow_unset = match &parameter {\n                    brush_parser::word::Parameter::Named(name)\n                    | brush_parser::word::Parameter::NamedWithIndex { name, .. }"),
+        ('subscripted-length-always-tolerates-unset', 'brush-core/src/expansion.rs', "                    | brush_parser::word::Parameter::NamedWithAllIndices { name, .. } => {\n                        self.shell.env().get(name).is_some()\n                    }\n                    _ => false,\n                };\n                let expansion = if allow_unset {", "                    | brush_parser::word::Parameter::NamedWithAllIndices { name, .. } => {\n                        let _ = name;\n                        true\n                    }\n                    _ => false,\n                };\n                let expansion = if allow_unset {"),
+    ],
+    'U40': [
+        ('export-letter-dropped-for-uppercasing-variables', 'brush-core/src/variables.rs', "            result.push('u');\n        }\n        if self.is_exported() {", "            result.push('u');\n        } else if self.is_exported() {"),
+        ('readonly-letter-printed-for-traced-variables', 'brush-core/src/variables.rs', "        if self.is_readonly() {\n            result.push('r');", "        if self.is_readonly() || self.is_trace_enabled() {\n            result.push('r');"),
+    ],
+    'U38': [
+        ('blanks-after-the-opening-dropped-from-the-command-text', 'brush-parser/src/word.rs', '            "$(" c:command() ")" { WordPiece::CommandSubstitution(c.to_owned()) } /', '            "$(" [\' \' | \'\\t\']* c:command() ")" { WordPiece::CommandSubstitution(c.to_owned()) } /'),
+    ],
+    'U39': [
+        ('pipe-output-read-only-once-partially', 'brush-core/src/sys/unix/async_pipe.rs', "        self.0.read_to_string(&mut s).await?;\n        Ok(s)", "        self.0.read_to_string(&mut s).await?;\n        s.truncate(0);\n        Ok(s)"),
+    ],
     'U35': [
         ('handler-word-that-names-a-signal-resets-instead', 'brush-builtins/src/trap.rs', "            Ok(ExecutionResult::success())\n        } else {\n            let handler = &self.args[0];", "            Ok(ExecutionResult::success())\n        } else if self.args[0].parse::<TrapSignal>().is_ok() {\n            for signal in &self.args {\n                Self::remove_all_handlers(&mut context, signal.parse()?);\n            }\n            Ok(ExecutionResult::success())\n        } else {\n            let handler = &self.args[0];"),
         ('handler-also-installed-for-its-own-name', 'brush-builtins/src/trap.rs', "            for signal in &self.args[1..] {\n                signal_types.push(signal.parse()?);\n            }", "            for signal in &self.args {\n                if let Ok(s) = signal.parse() { signal_types.push(s); }\n            }"),
